@@ -179,6 +179,28 @@ def unit_metric_keys(ctx):
                    func=PE + "Panoptica_Evaluator.resulting_metric_keys")
 
 
+def unit_ctor_defaults(ctx):
+    """constructing evaluators / handlers / matchers never modifies a shared mutable default argument"""
+    eng = ctx.engine()
+    for dm in [None] + ALL_METRICS:
+        def mk(e, dm=dm):
+            return [], {}
+
+        def target(dm=dm):
+            eng.load_module("panoptica")
+            before = _defaults_snapshot(eng)
+            kw = {} if dm is None else {"decision_metric": metric(eng, dm), "decision_threshold": 0.5}
+            ev = eng.call(eng.resolve(PE + "Panoptica_Evaluator"), [], kw)
+            eng.call(eng.resolve(EC + "EdgeCaseHandler"), [], {})
+            eng.call(eng.resolve(IM + "NaiveThresholdMatching"), [], {})
+            after = _defaults_snapshot(eng)
+            return [k for k in before if after.get(k) != before[k]]
+        ps = eng.run(target, mk)
+        ok = all(p.kind == "return" and p.value == [] for p in ps)
+        ctx.oblige(f"panoptica_evaluator.Panoptica_Evaluator.__init__[decision_metric={dm}]/frame(shared mutable default arguments unchanged)", [], z3.BoolVal(bool(ok)),
+                   func=PE + "Panoptica_Evaluator.__init__", replay="c15.ctor", info={"changed": str([p.value for p in ps if p.kind == "return"])[:200], "decision_metric": dm})
+
+
 def unit_decorators(ctx):
     """citation_reminder / measure_time return func(*args, **kwargs) unchanged."""
     eng = ctx.engine()
@@ -209,11 +231,14 @@ def build(ctx):
         for grouped in (False, True):
             ctx.unit(f"options[{it},{grouped}]", lambda it=it, grouped=grouped: unit_evaluate_options(ctx, it, grouped))
     ctx.unit("metric_keys", lambda: unit_metric_keys(ctx))
+    ctx.unit("ctor_defaults", lambda: unit_ctor_defaults(ctx))
     ctx.unit("decorators", lambda: unit_decorators(ctx))
     ctx.add_bounded("c15-history", "c15.bounded")
 
 
 def concretise(ctx, o, r):
+    if o.replay == "c15.ctor":
+        return {"decision_metric": o.info.get("decision_metric")}
     m = r.get("model") or {}
     b = lambda k: m.get(k, "False") == "True"
     opt = lambda k: None if b(k + "_is_none") else b(k)
